@@ -102,7 +102,9 @@ func (c *fsClient) validateFromUpToDate(x *Exec, st *State, pos token.Pos) {
 	}
 	lenOK := st.truth(tEq(lenTerm(ln), lenTerm(cur))) == 1
 	allOK := false
-	for k, v := range st.facts {
+	for _, k := range sortedFactKeys(st) {
+		v := st.facts[k]
+		_ = v
 		t := st.fterm[k]
 		if t.Op != "eq" || !v {
 			continue
@@ -124,7 +126,9 @@ func (c *fsClient) validateFromUpToDate(x *Exec, st *State, pos token.Pos) {
 	}
 	// a stack known to be empty together with equal lengths needs no element facts
 	if lenOK && !allOK {
-		for k, v := range st.facts {
+		for _, k := range sortedFactKeys(st) {
+			v := st.facts[k]
+			_ = v
 			t := st.fterm[k]
 			if t.Op == "lt" && !v && t.Args[1].Op == "len" && t.Args[1].Args[0] == cur && t.Args[0].Op == "bin" {
 				_ = k
@@ -144,7 +148,9 @@ func (c *fsClient) validateFromUpToDate(x *Exec, st *State, pos token.Pos) {
 	}
 	if os.Getenv("RSA_DEBUG") == "4" {
 		fmt.Fprintf(os.Stderr, "UPTODATE fail: cur=%s\n ln=%s\n", cur, ln)
-		for k, v := range st.facts {
+		for _, k := range sortedFactKeys(st) {
+			v := st.facts[k]
+			_ = v
 			if st.fterm[k].Op == "eq" {
 				fmt.Fprintf(os.Stderr, "   %s = %v\n", st.fterm[k], v)
 			}
